@@ -23,8 +23,8 @@ w("Departures from the design text of §2-§5 (the code is what counts):\n")
 w("* the Go harness is one package (`harness/cmd/vcheck`: `gen.go` generators, `features.go` pattern/haystack features, `framework.go` report/evidence/known-finding matcher/driver "
   "pool, `replay.go`, one `cNN.go` per property, `e2e.go` shared end-to-end differential, `learn.go` maintenance tool) instead of `internal/*` packages;\n"
   "* the compiled driver is `lean/Main.lean` (a chain of per-model handlers `Cx/Driver*.lean`), the axiom audit is generated per run by `check` (`.build/Audit_Cnn.lean`) instead of a fixed `Cx/Audit.lean`;\n"
-  "* there is no shrinker: a violation is reported on the case as generated (generators are built to produce small cases: AST depth ≤ 3-4, haystacks of a few dozen bytes, exhaustive short haystacks for the "
-  "engine ties) and its known-finding signature is computed from features of that case (strategy, primary AST/haystack feature, API family), not from a minimised one;\n"
+  "* shrinking exists only for end-to-end disagreements (`shrink.go`: haystack chunks, then AST reductions — child for node, dropped alternative/factor, lowered repeat bound, halved literal — then haystack again, 400 evaluations per case, first 25 violations of a run); "
+  "the shrunk witness is added to the message and the replay, while the known-finding signature is computed from the case as generated (strategy, primary AST/haystack feature, API family); the component ties use exhaustive short inputs and need none;\n"
   "* the regression corpus is `harness/cmd/vcheck/corpus_patterns.txt` (1271 patterns harvested from the repository's tests and docs, a generator source) plus the `example` of every ledger entry, replayed at the start of each run;\n"
   "* no hook had to be added to `/repo`: every tie uses exported API (`nfa.NFA` accessors, `lazy.DFA`, `onepass`, `literal.Extractor`, `prefilter`, `simd`, `meta.Engine.Strategy()`), so `hooks.source_commits` is empty; the harness is still built with `-tags verif`;\n"
   "* TLA+/Apalache/SPIN/Z3 are not used; `bv_decide` only in `Cx/Proofs/Swar.lean`.\n")
